@@ -56,6 +56,37 @@ def exc_sig(exc, tree=None):
 
 
 # --------------------------------------------------------------------------
+# guard against minutes-long cases: util.inflate_long is quadratic in the length of the string it is
+# given, and Message.get_bytes zero-pads a short read up to 1 MiB, so a 4-byte length field saying
+# 512 KiB in front of an mpint costs minutes (1 MiB - 1: ~10 min). Such cases are skipped and counted
+# (like bcrypt rounds > 64), never judged.
+# --------------------------------------------------------------------------
+class SkipSlow(BaseException):
+    """BaseException so that no `except Exception` in the code under test eats it."""
+
+
+INFLATE_STATS = dict(calls=0, skipped=0)
+
+
+def install_inflate_guard(limit=1 << 15):
+    import paramiko.util as pu
+
+    if getattr(pu.inflate_long, "_vf_guard", False):
+        return
+    real = pu.inflate_long
+
+    def inflate_long(s, always_positive=False):
+        INFLATE_STATS["calls"] += 1
+        if len(s) > limit:
+            INFLATE_STATS["skipped"] += 1
+            raise SkipSlow("inflate_long on %d bytes" % len(s))
+        return real(s, always_positive)
+
+    inflate_long._vf_guard = True
+    pu.inflate_long = inflate_long
+
+
+# --------------------------------------------------------------------------
 # wire decoding (documented Message semantics, re-implemented)
 # --------------------------------------------------------------------------
 class Reader:
